@@ -166,6 +166,12 @@ void Stats::processMsg(int sockfd) {
       OLOG << "Stats server error: closing file descriptor: "
            << ::strerror_r(errno, err_buf.data(), err_buf.size());
     }
+    // Give the handler slot back on every way out (read errors and stalled
+    // clients included), or the destructor waits for us forever.
+    std::unique_lock<std::mutex> lock(thread_mutex_);
+    thread_count_--;
+    lock.unlock();
+    thread_exited_.notify_one();
   };
   char mode = 'a';
   char byte_buf;
@@ -216,10 +222,6 @@ void Stats::processMsg(int sockfd) {
     OLOG << "Stats server error: writing to socket: "
          << ::strerror_r(errno, err_buf.data(), err_buf.size());
   }
-  std::unique_lock<std::mutex> lock(thread_mutex_);
-  thread_count_--;
-  lock.unlock();
-  thread_exited_.notify_one();
 }
 
 std::unordered_map<std::string, int> Stats::getAll() {
